@@ -103,10 +103,12 @@ def run(ctx):
         return cfg, n
 
     skip_mc = bool(os.environ.get("VERIF_XNP_SKIP_MC"))   # developer switch for mutation runs: only the real executions
-    pos = [("MC_Quick_Admit", CONTROL), ("MC_Quick_Deliver", SESSION + DATA + RETX)]
+    pos = [("MC_Quick_Admit", CONTROL), ("MC_Quick_Deliver", SESSION + DATA + ["DoTickAll", "DoCallback", "CancelHandler", "RemoveHandler", "ExitOnDone"]),
+           ("MC_Quick_Retx", SESSION + DATA + ["DoTickAll", "DoCallback", "DoCancelSend"])]
     negs = ["MC_NegNoFirewall", "MC_NegNoMatch", "MC_NegRelay"]
     if ctx.thorough:
-        pos += [("MC_Admit", CONTROL + SESSION), ("MC_Deliver", SESSION + DATA + RETX + ["DoDisconnect"]),
+        pos += [("MC_AdmitRelay", CONTROL), ("MC_DeliverCancel", SESSION + DATA + RETX),
+                ("MC_Admit", CONTROL + SESSION), ("MC_Deliver", SESSION + DATA + RETX + ["DoDisconnect"]),
                 ("MC_Two", DATA + RETX), ("MC_TwoHandlers", DATA + RETX), ("MC_Mitm", SESSION + DATA + ["DoAdvInject"]),
                 ("MC_Unreduced", SESSION + DATA + RETX)]
         negs = list(NEGATIVES)
@@ -128,8 +130,8 @@ def run(ctx):
                 lambda: (lambda r: ("MC_Live", r.distinct))(tlc("MC_Live", coverage=False)))))
         for cfg in negs:
             jobs.append(("refuted", pool.submit(negative, cfg)))
-        if not skip_mc:
-            jobs.append(("simulated", pool.submit(simulate, "Sim_Full", ctx.pick(150, 3000))))
+        if not skip_mc and ctx.thorough:
+            jobs.append(("simulated", pool.submit(simulate, "Sim_Full", 3000)))
         for kind, f in jobs:
             cfg, val = f.result()
             results[kind][cfg] = val
